@@ -211,6 +211,8 @@ func genDumpStruct(t *rapid.T, depth, maxDepth int, facts *dumpFacts) (desc.T, d
 				name = name + strings.Repeat("x", []int{61, 62, 63, 64, 127}[i%5]) // long names (62..128 bytes)
 			case 2:
 				name = name + "_9é"
+			case 4:
+				name = "XXX_" + name // exported, named like the bookkeeping fields of older generated code: a field like any other
 			case 3:
 				if i == 0 {
 					name = "Time" // an ordinary field that happens to be called like the embedded time.Time
